@@ -17,8 +17,11 @@ Inductive step :=
   | SDel (P : option period)
   | SCalc (P : period).
 
+(* [KClone v n k steps]: the simulation is cloned before step [k]; the steps from [k] on are run on the
+   original and on the clone, which therefore both see the whole history *)
 Inductive case :=
-  | KHist (v : var) (n : Z) (steps : list step).
+  | KHist (v : var) (n : Z) (steps : list step)
+  | KClone (v : var) (n : Z) (k : nat) (steps : list step).
 
 Definition unit_code (u : unit_t) : Z :=
   match u with Weekday => 0 | Week => 1 | Day => 2 | Month => 3 | Year => 4 | Eternity => 5 end.
@@ -68,4 +71,6 @@ Fixpoint run_hist (v : var) (n : Z) (h : holder) (steps : list step) : list obs 
 Definition run (c : case) : obs :=
   match c with
   | KHist v n steps => OL (run_hist v n [] steps)
+  | KClone v n k steps =>
+      let hist := run_hist v n [] steps in OL [OL hist; OL (skipn k hist)]
   end.
